@@ -213,6 +213,39 @@ def map_term(t, fn):
     return t
 
 
+def rename_const(F, cname):
+    """the sugared formula with the constant `start` called `cname` (for `const cname: <start>; ...`)"""
+    def fn(r):
+        if r == ["v", "start"]:
+            return ["v", cname]
+        if r[0] == "xp":
+            return ["xp", fn(r[1]), r[2]]
+        return r
+    return map_refs(F, fn)
+
+
+def rename_core_var(f, old, new):
+    """core formula (vlib/fml.py) with the free variable `old` renamed"""
+    k = f[0]
+    if k in ("forall", "exists"):
+        return [k, f[1], f[2], new if f[3] == old else f[3], f[4], rename_core_var(f[5], old, new)]
+    if k in ("and", "or", "not"):
+        return [k] + [rename_core_var(x, old, new) for x in f[1:]]
+    if k == "smt":
+        def rt_(t):
+            if t[0] == "var":
+                return ["var", new if t[1] == old else t[1]]
+            if t[0] in ("str", "int"):
+                return t
+            return [t[0]] + [rt_(a) for a in t[1:]]
+        return ["smt", rt_(f[1])]
+    if k == "pred":
+        return ["pred", f[1]] + [["v", new] if a == ["v", old] else a for a in f[2:]]
+    if k == "count":
+        return ["count", new if f[1] == old else f[1], f[2], f[3]]
+    return f
+
+
 def plain_term(t):
     """sugared term -> fml term with every reference as an opaque variable named by its text"""
     if t[0] == "ref":
@@ -566,14 +599,35 @@ class Desugarer:
                 x = self.propagate(x)
                 if x[0] == zero:
                     return [zero]
-                if x[0] != unit:
+                if x[0] != unit and x not in xs:      # A and A = A
                     xs.append(x)
+            for x in xs:                              # A and not A = false, A or not A = true
+                if ["not", x] in xs:
+                    return [zero]
             if not xs:
                 return [unit]
             return xs[0] if len(xs) == 1 else [k] + xs
         return f
 
-    def run(self, F, fold=False):
+    def fold_atoms(self, f, mode, const_of, neg=False):
+        """replace SMT atoms that fold to a constant.  const_of(term) -> (value if the atom itself simplifies to a
+        constant, value if its negation does); mode "all": every such atom, mode "neg": only occurrences below an odd
+        number of negations (the parser simplifies an atom only when it negates it)"""
+        k = f[0]
+        if k in ("forall", "exists"):
+            return f[:5] + [self.fold_atoms(f[5], mode, const_of, neg)] + list(f[6:])
+        if k == "not":
+            return ["not", self.fold_atoms(f[1], mode, const_of, not neg)]
+        if k in ("and", "or"):
+            return [k] + [self.fold_atoms(x, mode, const_of, neg) for x in f[1:]]
+        if k == "smt":
+            pos, ng = const_of(f[1])
+            val = (pos if pos is not None else ng) if mode == "all" else (ng if neg else None)
+            if val is not None:
+                return ["true"] if val else ["false"]
+        return f
+
+    def run(self, F, fold=None, const_of=None):
         """returns the annotated translation (introduced quantifiers carry a 7th element ("intro", i))"""
         self.free = {}
         f = self.resolve(F, {})
@@ -582,7 +636,7 @@ class Desugarer:
             f = ["forall", T, self.free[T], ["v", "start"], None, f, ("intro", self.n_intro)]
         f = self.connectives(f)
         if fold:
-            f = self.propagate(f)
+            f = self.propagate(self.fold_atoms(f, fold, const_of))
         f = self.xpaths(f)
         # XPath expressions on the constant: only `start..<T>` has a documented translation
         head_paths, f = self.eliminate_at(["start"], f)
@@ -612,12 +666,12 @@ class Desugarer:
         return self.push(self.nnf(annotated), set(pushed))
 
 
-def desugar(cg, F, max_variants=8, fold=False):
+def desugar(cg, F, max_variants=8, fold=None, const_of=None):
     """returns dict: core (the specification's placement), variants (list of core ASTs with introduced
     quantifiers pushed inwards), n_intro, printable.  fold: propagate the constants true/false first (used for
     the reading in which constant atoms are folded away before the free nonterminals are closed)"""
     d = Desugarer(cg)
-    ann = d.run(F, fold)
+    ann = d.run(F, fold, const_of)
     n = d.n_intro
     core = d.variant(ann)
     subsets = []
@@ -656,6 +710,8 @@ def features(F):
     plain_free = set()
     head_free = set()
     xp_by_head = {}
+    dup_omitted = set()   # types of unnamed quantifiers below iff/xor (duplicated and renamed by the parser)
+    xp_final_types = set()
     bound_names = {}      # variable name -> number of quantifiers binding it
     xp_head_names = set()
     registered = set()    # nonterminals that currently have a variable in the parser's free-nonterminal table
@@ -692,6 +748,8 @@ def features(F):
                     cause("free_before_omitted", _base(T))
                 if T == "<start>":
                     cause("start_omitted_name")
+                if pol == 0:
+                    dup_omitted.add(T)
                 registered.add(T)
             else:
                 b2[v] = info
@@ -793,6 +851,7 @@ def features(F):
                     xp_head_names.add((h[1], _base(steps[-1][1]), _base(first[-1][0]) if first else h[1]))
                 hid = "v:" + h[1]
             xp_by_head.setdefault(hid, set()).add(xp_key(r))
+            xp_final_types.add(steps[-1][1])
             if xp_key(r) not in xp_seen:
                 xp_seen.add(xp_key(r))
                 if steps[-1][1] not in registered:
@@ -835,6 +894,10 @@ def features(F):
         if bound_names.get(n, 0) > 1:
             fs.add("xp_head_name_reused")
             cause("xp_head_name_reused", last, mid, n)
+    for T in dup_omitted & xp_final_types:
+        # the renamed copy of the unnamed quantifier (<T> -> T_0) can capture the still free XPath variable T_0
+        fs.add("dup_unnamed_binder_and_xpath_of_type")
+        cause("dup_binder_captures_xpath_var", _base(T))
     for T in head_free & plain_free:
         fs.add("free_plain_and_head")
         cause("free_plain_and_head", _base(T))
@@ -858,7 +921,7 @@ class SGen:
         self.R = rt.reach(cg)
         o = dict(p_omit_in=0.6, p_omit_name=0.3, p_free=0.22, p_xp=0.4, p_dd=0.3, p_user_mexpr=0.08, p_multiseg=0.03,
                  p_start_dd=0.015, p_conflict=0.08, p_in_nt=0.12, p_neg=0.25, p_flat=0.35, p_forall=0.55,
-                 p_known_shape=0.12, p_free_start=0.04, p_reuse_name=0.25,
+                 p_known_shape=0.12, p_free_start=0.04, p_reuse_name=0.5,
                  connectives=("and", "or", "not", "implies", "iff", "xor"))
         o.update(opts or {})
         self.o = o
@@ -1124,9 +1187,14 @@ class SGen:
         if "<start>" in cand and len(cand) > 1 and not chance(rnd, o["p_free_start"]):
             cand.remove("<start>")
         T = pick(rnd, cand)
+        same = sorted({t for n, t in self.closed if t in cand})
+        if same and chance(rnd, 0.3):
+            T = pick(rnd, same)   # makes re-using a variable name possible
         name = self.fresh()
         in_scope = {e["ref"][1] for e in scope if e["ref"][0] == "v"}
-        again = sorted({n for n, t in self.closed if n not in in_scope})
+        # (only with the same type: re-using a name with another nonterminal silently keeps the first type --
+        # a defect of the core parser's variable table, not of the sugar translation)
+        again = sorted({n for n, t in self.closed if t == T and n not in in_scope})
         if again and chance(rnd, o["p_reuse_name"]):
             # the same name for another quantifier outside the first one's scope
             name = pick(rnd, again)
